@@ -48,6 +48,21 @@ def mic(d, H):
     red = d - np.round(s) @ H
     w = widths(H)
     r = np.linalg.norm(red, axis=1)
+    # a representative shorter than half the smallest cell width is already the unique minimum image
+    todo = np.nonzero(r >= 0.5 * w.min() * (1 - 1e-9))[0]
+    if len(todo) < len(d):
+        best_v = red.copy()
+        best = r.copy()
+        if len(todo):
+            sub_v, sub_m = _mic_search(red[todo], r[todo], H, w)
+            best_v[todo] = sub_v
+            best[todo] = sub_m
+        return best_v, best
+    return _mic_search(red, r, H, w)
+
+
+def _mic_search(red, r, H, w):
+    d = red
     # a lattice vector n.H with |n_i| > (|red| + |red|)/w_i cannot bring the image closer than |red|
     K = int(math.ceil(2.0 * r.max() / w.min())) + 1
     if K > 14:
@@ -56,16 +71,22 @@ def mic(d, H):
     shifts = np.array(list(itertools.product(rng, rng, rng)), dtype=np.float64) @ H  # (S,3)
     best_v = red.copy()
     best = r.copy()
-    # chunk over shifts to bound memory
-    for lo in range(0, len(shifts), 4096):
-        sh = shifts[lo:lo + 4096]
-        cand = red[:, None, :] + sh[None, :, :]
-        n = np.linalg.norm(cand, axis=2)
-        k = n.argmin(axis=1)
-        m = n[np.arange(len(d)), k]
-        upd = m < best
-        best[upd] = m[upd]
-        best_v[upd] = cand[np.arange(len(d)), k][upd]
+    # chunk over pairs and shifts to bound memory (<= ~30 MB per block)
+    for p0 in range(0, len(d), 2048):
+        sl = slice(p0, p0 + 2048)
+        rb = red[sl]
+        bv = best_v[sl]
+        bb = best[sl]
+        ar = np.arange(len(rb))
+        for lo in range(0, len(shifts), 512):
+            sh = shifts[lo:lo + 512]
+            cand = rb[:, None, :] + sh[None, :, :]
+            n = np.sqrt((cand * cand).sum(axis=2))
+            k = n.argmin(axis=1)
+            m = n[ar, k]
+            upd = m < bb
+            bb[upd] = m[upd]
+            bv[upd] = cand[ar, k][upd]
     return best_v, best
 
 
